@@ -28,7 +28,8 @@ FUNCTIONS = ["metrics.APE/RPE.process_data", "PE.get_all_statistics", "PE.get_re
              "save_res_file", "pandas_bridge.trajectory_to_df / result_to_df", "PosePath3D.get_infos / get_statistics / check / distances / speeds / __eq__",
              "split_time_gaps / split_distance_gaps / split_speed_outliers", "copy.deepcopy", "transform / scale / project / reduce_to_ids (mutators)",
              "plot.traj / traj_xyz / traj_rpy / speeds / traj_colormap / draw_coordinate_axes / draw_correspondence_edges / trajectories"]
-BOUNDS = {"quick": "N = 3 poses; one derivation x one mutation (two-step histories)", "thorough": "N = 4; all derivation x mutation pairs"}
+BOUNDS = {"quick": "N = 3 poses for the argument snapshots (34 functions incl. 8 plot functions); N = 2 for all 7 x 5 derivation x mutation pairs "
+                   "(two-step histories)", "thorough": "the same cases (the tiers do not differ for this property)"}
 STUBS = ["SVD / eigh / sqrt / acos* / atan2 stubs as elsewhere", "savetxt / save / json text-cell stubs (do not write to their argument)"]
 ASSUMPTIONS = ["valid trajectories"]
 OUTSIDE = ["plot functions beyond the 8 listed (ros_map, map_tile, PlotCollection)", "bag writer"]
